@@ -76,6 +76,51 @@ Section Commit.
     inversion H; subst. rewrite IH by assumption. apply exec_no_commit; assumption.
   Qed.
 
+  (* FRAME CONDITION, per operation: if an operation changes the committed state of some group,
+     it is Save_Iter, Set_Iter or the mesh replacement -- never an assembly or a result query *)
+  Theorem only_commit_ops_change_committed : forall s o g,
+      committed (exec s o) g <> committed s g ->
+      o = Save \/ (exists i, o = SetIter i) \/ o = ResetMesh.
+  Proof.
+    intros s o g Hne. destruct o as [eps reached| | |i|].
+    - exfalso. apply Hne. apply exec_no_commit. exact I.
+    - exfalso. apply Hne. apply exec_no_commit. exact I.
+    - left; reflexivity.
+    - right; left; exists i; reflexivity.
+    - right; right; reflexivity.
+  Qed.
+
+  (* FRAME CONDITION, for EVERY op list: whatever came before (saves, restores, remeshing,
+     assemblies in any order), the committed state after the list is the one right after its last
+     committing operation; the assemblies / result queries that follow leave every group equal *)
+  Theorem committed_fixed_since_last_commit : forall pre post s, Forall no_commit post ->
+      forall g, committed (run s (pre ++ post)) g = committed (run s pre) g.
+  Proof.
+    intros pre post s H g. unfold run. rewrite fold_left_app.
+    apply (commit_only_on_save post (fold_left exec pre s) H g).
+  Qed.
+
+  (* every op list splits this way: a prefix ending with its last committing op (or empty) and a
+     commit-free suffix *)
+  Lemma split_last_commit : forall ops : list op,
+      exists pre post, ops = pre ++ post /\ Forall no_commit post /\
+                       (pre = [] \/ exists pre' c, pre = pre' ++ [c] /\ ~ no_commit c).
+  Proof.
+    induction ops as [|o r IH] using rev_ind.
+    - exists [], []. repeat split; [constructor | left; reflexivity].
+    - destruct IH as [pre [post [E [Hp Hc]]]].
+      assert (D : no_commit o \/ ~ no_commit o) by (destruct o; simpl; auto).
+      destruct D as [D|D].
+      + exists pre, (post ++ [o]). repeat split.
+        * rewrite E, app_assoc. reflexivity.
+        * apply Forall_app. split; [exact Hp | constructor; [exact D | constructor]].
+        * exact Hc.
+      + exists (r ++ [o]), []. repeat split.
+        * rewrite app_nil_r. reflexivity.
+        * constructor.
+        * right. exists r, o. split; [reflexivity | exact D].
+  Qed.
+
   (* every assembly of an increment integrates from the SAME committed state, and Save commits
      the trial state of the LAST assembly *)
   Theorem save_commits_last_trial : forall ops s eps, Forall no_commit ops ->
